@@ -74,6 +74,7 @@ ARet(kind, hasOut, hasErr, nout, nerr, outOk, errOk, t) ==
           \cup V(outOk /\ errOk, "C02_out_exact")
           \cup V(dl # NoTime => outOk /\ errOk, "C04_no_output_lost_or_repeated_across_resumed_reads")
           \cup V(limit >= 0 /\ kind \in {"ok", "timedout"} => total <= limit, "C03_limit")
+          \cup V(limit >= 0 => outOk /\ errOk, "C03_pieces_consecutive_and_exact")
           \cup V(kind = "timedout" => dl # NoTime /\ TLt(dl, TAdd(t, <<0, 1000000>>)), "C04_truthful")
           \cup V(dl # NoTime => TLe(t, TAdd(dl, LateSlack)), "C04_bounded")
   /\ UNCHANGED <<piped, inlen, limit, dl, t0, sanity>>
@@ -99,6 +100,9 @@ AChild(final, wroteOut, wroteErr, recv, recvOk, eof, eofWait, tCloseOut, tCloseE
           \cup V(final /\ completeAt # <<>> /\ "in" \in piped /\ eof => recv = inlen, "C02_in_complete")
           \* all input received, then kept waiting for end-of-file
           \cup V("in" \in piped /\ eof /\ recv = inlen => TLe(eofWait, EofSlack), "C02_in_eof_prompt")
+          \* under a size limit: when the all-empty end marker has come, the pieces add up to everything written
+          \cup V(final /\ limit >= 0 /\ emptyOkAt # NoTime => \A o \in Outs \cap piped : delivered[o] = wrote[o],
+                 "C03_pieces_consecutive_and_exact")
           \* an all-empty success means every captured stream had been closed by then
           \cup V(final /\ emptyOkAt # NoTime => \A o \in Outs \cap piped : tClose[o] # NoTime /\ TLe(tClose[o], emptyOkAt),
                  "C03_empty_is_eof")
